@@ -322,6 +322,56 @@ for _p, _t in ADDENDA.items():
     if _p in CHECKS and _t:
         CHECKS[_p]['text'] += _t
 
+# second round (DESIGN.md 6.3): function-coverage holes closed, waves 5 and 6
+ADDENDA2 = {
+    'C01': ' Round 2: copy protocol (copy.copy / deepcopy); dtype sweep over every documented dtype class '
+           '(longdouble, clongdouble, float16, complex64, non-native byte order, small and unsigned integers) '
+           'in all size regimes.',
+    'C02': ' Round 2: magnitude regimes of the geometry (far from the origin, tiny, huge; boundary fractions next '
+           'to 1 and 1/2), spaces derived by astype / real_space / complex_space / x.real / x.imag / x.conj / '
+           'x.astype under the full oracle, absolute homogeneity for scalings 2^k at the edge of the '
+           'floating-point range.',
+    'C03': ' Round 2: block operators whose rows start with a view-returning operator, Resampling where every '
+           'target node is a tie / mixed schemes per axis, simple_functional and its conjugates.',
+    'C04': ' Round 2: scalar magnitude regimes (2^-30, 2^30, 1 + 2^-20, tiny imaginary part) and NumPy scalar '
+           'types in every scalar form, leaves that hand back their argument (or a view of it) in every '
+           'combinator.',
+    'C05': ' Round 2: the identity evaluated again for inputs wrapping Fortran-ordered arrays; scalars with a '
+           'tiny imaginary part, tiny and huge factors.',
+    'C06': ' Round 2: base points of tiny magnitude with steps scaled alike (judged where the three step sizes '
+           'agree to 1e-8); simple_functional and its conjugates.',
+    'C07': ' Round 2: raw factories for box / non-negativity / constant functionals with every documented form of '
+           'the bounds, sub-sums taken out of a separable sum by indexing, list / tuple / ndarray spellings of '
+           'per-component steps, simple_functional with 0-3 conjugations, one-component weighted power spaces.',
+    'C08': ' Round 2: Moreau decomposition of the factory pairs proximal_X / proximal_convex_conj_X with their own '
+           'lam, g and per-point steps, and of (scaled) separable sums with per-component steps; points of tiny '
+           'magnitude on both sides of the Fenchel-Young clauses.',
+    'C09': ' Round 2: base points of tiny magnitude; factors and dividends that vanish where their gradient does '
+           'not; gradient callables that return their argument; a derivative must not follow later in-place '
+           'updates of its base point; derived functionals over a linear base (affine results must not be '
+           'flagged linear).',
+    'C13': ' Round 2: cell sides next to 1 and magnitude regimes of the grid.',
+    'C14': ' Round 2: magnitude regimes of limits and coordinates (far, tiny, huge), built-as-uniform clause for '
+           'every construction route, operands and points spelled as tuples / NumPy scalars.',
+    'C15': ' Round 2: reordered (unsorted) mesh vectors and point arrays, magnitude regimes of coordinates and '
+           'values, Resampling.inverse / adjoint, LinDeformFixedDisp.inverse, structure of '
+           'LinDeformFixedTempl.derivative.',
+    'C16': ' Round 2: explicit range= deviating from the consistent partition in one axis (cell size, fractional '
+           'and whole-cell shifts) x cell-size magnitudes: refusal or the property.',
+    'C17': ' Round 2: pairs of special values across parts (0 with inf / nan) in every reduction, operands of '
+           'every other dtype as ndarray / list / Python and NumPy scalar / 0-d array, where= and wider out= '
+           'in the legacy interface, wrapping through data_ptr.',
+    'C18': ' Round 2: every parity pattern of the transformed axes (2-d, 3-d) for the wavelet round trip, wavelet '
+           'objects / int and negative axes / inverse built directly / inverse.inverse, FFTW plan life cycle of '
+           'the continuous transform, reciprocal_grid against realspace_grid.',
+    'C19': ' Round 2: report keys per documented clause (origin, intrinsic shape, height along the axis) so that a '
+           'recorded finding cannot absorb a different misplacement.',
+    'C20': ' Round 2: astype of product spaces whose factors have different dtypes.',
+}
+for _p, _t in ADDENDA2.items():
+    if _p in CHECKS and _t:
+        CHECKS[_p]['text'] += _t
+
 _PENDING = 'check under construction in this session; not claimed until it runs quietly on the unchanged tree'
 NOT_APPLICABLE = dict((p, _PENDING) for p in
                       [])
